@@ -142,9 +142,9 @@ func gen(p protos.P, limit uint32, r *core.Rand, routes map[string]string, valid
 		}
 		return input{Class: "gzip-bomb", Bytes: b, Bomb: true}
 	case x < 17 && p.HTTP:
-		v := []string{"-1", "0", "99999999999", "abc", "2147483647", fmt.Sprint(uint64(limit) + 1)}[r.Intn(6)]
+		v := []string{"-1", "0", "99999999999", "abc", "2147483647", fmt.Sprint(uint64(limit) + 1), "4294967296", "4294967297", "8589934592", fmt.Sprint(uint64(1)<<32 + uint64(limit)/2)}[r.Intn(10)]
 		b := []byte("POST " + routes["echo"] + " HTTP/1.1\r\nContent-Length: " + v + "\r\nContent-Type: text/plain\r\nX-Seq: 5\r\nX-Mtype: 1\r\n\r\nabc")
-		return input{Class: "http-content-length", Bytes: b, Oversz: v == "99999999999" || v == "2147483647" || v == fmt.Sprint(uint64(limit)+1)}
+		return input{Class: "http-content-length", Bytes: b, Oversz: len(v) >= 10 || v == fmt.Sprint(uint64(limit)+1)}
 	case x < 18 && p.HTTP && limit <= 1<<20 && r.Intn(3) == 0:
 		b := append([]byte("POST /"), bytes.Repeat([]byte("a"), int(limit)*4)...)
 		return input{Class: "http-endless-line", Bytes: b, Oversz: true}
